@@ -56,6 +56,9 @@ var versions = []version{
 	{"V10rebucket", "counter n by k\ngauge g\ncounter total\nhistogram h buckets 1, 4\n" + body + histBody},
 	{"V11morebuckets", "counter n by k\ngauge g\ncounter total\nhistogram h buckets 1, 2, 4\n" + body + histBody},
 	{"V12histcomment", "counter n by k\ngauge g\ncounter total\nhistogram h buckets 1, 2\n" + body + histBody + "# a comment\n"},
+	// compiles, and none of its names is registered yet with another kind, but two of its own declarations export
+	// one name with different kinds: registration fails half way
+	{"V13selfclash", "counter n by k\ngauge g\ncounter total\ncounter c1 as \"dup\"\ngauge c2 as \"dup\"\n" + strings.Replace(body, "g = 7", "g = 7\n  c1++\n  c2 = 1", 1)},
 }
 
 const histBody = "/^h (\\S+)$/ {\n  h = float($1)\n}\n"
@@ -369,7 +372,7 @@ func mkConfig(c *vlib.Ctx, cname string, vers []int, lines []string, withOther b
 					}
 				case r.lastErr != "":
 					note = "load-failed"
-					if v.id != "V6syntax" && v.id != "V7clash" && v.id != "V3kind" {
+					if v.id != "V6syntax" && v.id != "V7clash" && v.id != "V3kind" && v.id != "V13selfclash" {
 						return viol("load-refused "+v.id, "a valid edit was refused: "+r.lastErr)
 					}
 					if v.id == "V7clash" && !withOther {
@@ -459,6 +462,7 @@ func main() {
 			mkConfig(c, "via-program-directory/depth3", all, []string{"k a", "o a"}, true, 3, variant{viaDir: true}),
 			mkConfig(c, "omit-metric-source/depth3", all, []string{"k a", "o a"}, false, 3, variant{}, runtime.OmitMetricSource()),
 			mkConfig(c, "histogram-declarations/depth4", []int{10, 11, 12, 13, 7}, []string{"h 1.5", "h 3"}, false, 4, variant{}),
+			mkConfig(c, "registration-refused-half-way/depth4", []int{2, 9, 14}, []string{"k a", "k b"}, false, 4, variant{}),
 		)
 	} else {
 		cfgs = append(cfgs,
@@ -469,6 +473,7 @@ func main() {
 			mkConfig(c, "via-program-directory/depth4", all, lines, true, 4, variant{viaDir: true}),
 			mkConfig(c, "omit-metric-source/depth4", all, lines, false, 4, variant{}, runtime.OmitMetricSource()),
 			mkConfig(c, "histogram-declarations/depth6", []int{10, 11, 12, 13, 7}, []string{"h 1.5", "h 3", "h 0.5"}, false, 6, variant{}),
+			mkConfig(c, "registration-refused-half-way/depth6", []int{2, 3, 9, 14}, []string{"k a", "k b", "o a"}, false, 6, variant{}),
 		)
 	}
 	c.Assume = []string{
